@@ -450,9 +450,9 @@ func run(c *harness.Ctx, i int) {
 
 	// success is required when the store is complete and the seeds are consistent, or skip/regenerate was chosen.
 	// Exemptions (success not demanded, only "no wrong success"): a seed that aliases the target (it changes while
-	// being read), and regenerate with a seed whose file does not exist (nothing to regenerate from).
+	// being read).
 	logInfo(hostile)
-	mustSucceed := (!anyStale || action != 0) && !anyAlias && !(anyMissing && action == 2) && hostile == ""
+	mustSucceed := (!anyStale || action != 0) && !anyAlias && hostile == ""
 
 	sigKinds := strings.Join(kindsUsed, ",")
 	sigKindsExtra := ""
